@@ -58,6 +58,12 @@ Definition sampled_range_indices (off itv p q : Q) (m : smode) : option (Z * Z) 
 Definition sampled_axis (off itv : Q) (count : nat) (start : Z) : list Q :=
   map (fun k => inject_Z (Z.of_nat k) * itv + (inject_Z start * itv + off)) (seq 0 count).
 
+(* axis(count, start_position=p): refused when p lies before the offset, else
+   tuple(np.arange(count) * sample + p); axis(count) is axis(count, start=0) *)
+Definition sampled_axis_at (off itv : Q) (count : nat) (p : Q) : option (list Q) :=
+  if Qltb p off then None
+  else Some (map (fun k => inject_Z (Z.of_nat k) * itv + p) (seq 0 count)).
+
 (* ------------------------------------------------------------------- RangeDimension *)
 Fixpoint last_index_from (i : Z) (f : Q -> bool) (l : list Q) (acc : option Z) : option Z :=
   match l with
